@@ -285,6 +285,18 @@ theorem read_back (k : Kind) (e : Endian) (ops : List WOp) (rest : List UInt8) :
       rw [List.take_left' rfl, List.drop_left' rfl]
       rw [ih e]
 
+/-- **changing the byte order in mid-stream affects only the values read afterwards** — for ARBITRARY
+    bytes `bs` (not only bytes produced by the mirrored writes): the reads before the switch return what
+    they return without it (under the order `e`), the reads after it are exactly a read history started in
+    the new order `e'` on the bytes the earlier reads left -/
+theorem read_switch_affects_only_later (k : Kind) (e e' : Endian) (bs : List UInt8) (before after : List ROp) :
+    readAll k e bs (before ++ .setEndian e' :: after) =
+      ((readAll k e' (readAll k e bs before).2.2 after).1,
+       (readAll k e bs before).2.1 ++ RVal.none :: (readAll k e' (readAll k e bs before).2.2 after).2.1,
+       (readAll k e' (readAll k e bs before).2.2 after).2.2) := by
+  rw [readAll_append]
+  simp [readAll, readOp]
+
 /-- all three classes produce the same bytes for the same value and order -/
 theorem classes_agree (k k' : Kind) (e : Endian) (t : Ty) (v : Nat) (hv : ValidBits t v) :
     putScalar k e t v = putScalar k' e t v := by
@@ -328,6 +340,9 @@ example : ∀ k ∈ [Kind.sb, Kind.file, Kind.sock],
       .scalar .f32 0x7fa00001, .cstr [65, 0, 66]]).2 = [4, 3, 2, 1, 0, 1, 0x80, 0, 1, 0, 0xa0, 0x7f, 65] := by decide
 example : (readAll .sb .big [1, 2, 3, 4, 5, 6] [.scalar .u16, .setEndian .little, .scalar .i32]).2.1 =
     [.val .u16 0x0102, .none, .val .i32 0x06050403] := by decide
+/-- a switch between two reads of arbitrary bytes, on File: the first read is unaffected, the second uses the new order -/
+example : (readAll .file .big [1, 2, 3, 4, 9] [.scalar .u16, .setEndian .little, .scalar .u16]) =
+    (.little, [.val .u16 0x0102, .none, .val .u16 0x0403], [9]) := by decide
 /-- the array overload before commit 264bf86 passed `x.length()` to `write`: three bytes for three ints -/
 example : ((arrayMem .i32 [1, 2, 3]).take 3).length = 3 ∧ (putArray .file .native .i32 [1, 2, 3]).length = 12 := by decide
 
